@@ -1,9 +1,14 @@
 """C08 — the grid spatial index never omits a feature that is geometrically there
 (tracklib/core/spatial_index.py, isSegmentIntersects/cartesienne of tracklib/util/geometry.py).
 
-A case is one scenario: a collection (tracks, or the edges of a small network), a resolution, a margin,
-optional later `addFeature` calls, and a list of queries. The Lean model (Model/Grid.lean) runs the same
-scenario in one driver line. Two scalar modes:
+A case is one session on ONE index object: a collection (tracks, or the edges of a small network), a resolution, a
+margin, optional queries run right after construction (`pre`), optional later `addFeature` calls (`late`; through
+`Network.addEdge` when the index was made by `Network.createSpatialIndex`), and a list of queries run after them (the
+generators repeat the `pre` queries there: what a query left behind must not change a later answer). `entry` selects
+the front end (the constructor, `TrackCollection.createSpatialIndex(resolution, verbose)` — whose flag lands in the
+constructor's `margin` parameter —, `Network.createSpatialIndex(resolution, margin, verbose)`), `geo` the class of the
+query coordinates (GeoCoords instead of ENUCoords). The Lean model (Model/Grid.lean) is pure: it runs the session as
+one driver line for the state after construction and one for the state after the later additions. Two scalar modes:
   rat  every float operation of the Python is exact on the case (checked by `exact_case`: the float run of
        the constructor / __getCell is replayed next to a Fraction run and must agree); the model runs on Rat,
        the oracle is exact rational geometry with closed cells.
@@ -49,26 +54,22 @@ def twin_build(bb, res, m, hundred):
     ay = ymax - ymin
     if res is None:
         am = max(ax, ay)
-        r = am / hundred
-        cs, ls = max(1, int(ax / r)), max(1, int(ay / r))
+        r = am / hundred if am > 0 else 1
+        r = (r, r)
     else:
-        cs, ls = int(ax / res[0]), int(ay / res[1])
-    dX = ax / cs
-    dY = ay / ls
+        r = res
+    cs, ls = max(1, int(ax / r[0])), max(1, int(ay / r[1]))
+    dX = ax / cs if ax > 0 else r[0]
+    dY = ay / ls if ay > 0 else r[1]
     return (xmin, xmax, ymin, ymax, cs, ls, dX, dY)
 
 
 def twin_cell(info, x, y):
-    """__getCell; raises ZeroDivisionError for a point inside an extent with a zero cell side"""
+    """__getCell"""
     xmin, xmax, ymin, ymax, cs, ls, dX, dY = info
     if x < xmin or x > xmax or y < ymin or y > ymax:
         return None
-    return ((x - xmin) / dX, (y - ymin) / dY)
-
-
-def flat_grid(tw):
-    """the twin built a grid with a zero cell side (flat extent, default resolution)"""
-    return tw not in (None, "zerodiv") and (tw[6] == 0 or tw[7] == 0)
+    return (min((x - xmin) / dX, cs), min((y - ymin) / dY, ls))
 
 
 def case_bbox(case):
@@ -81,8 +82,8 @@ def case_bbox(case):
 
 
 def exact_twin(case):
-    """Fraction run of the constructor up to the registration loop: info tuple (a cell side may be 0: see `flat_grid`),
-    or 'zerodiv', or None (no feature)"""
+    """Fraction run of the constructor up to the registration loop: info tuple, or 'zerodiv' (a cell size 0 given by
+    the caller), or None (no feature)"""
     bb = case_bbox(case)
     if bb is None:
         return None
@@ -98,7 +99,7 @@ def case_points(case):
     pts = [p for f in case["feats"] for p in f]
     for num, t in case.get("late", []):
         pts += t
-    for q in case["queries"]:
+    for q in list(case["queries"]) + list(case.get("pre") or []):
         k = q[0]
         if k in ("pt", "npt", "nd", "getcell"):
             pts.append(q[1:3])
@@ -151,8 +152,6 @@ def _exact_case(case):
         return False
     if not (small_dyadic(iq[6]) and small_dyadic(iq[7]) and all(small_dyadic(v) for v in iq[:4])):
         return False
-    if iq[6] == 0 or iq[7] == 0:
-        return True        # zero cell side: only the (exact) range tests of __getCell are computed before it raises
     for p in case_points(case):
         cq = twin_cell(iq, fr(p[0]), fr(p[1]))
         cf = twin_cell(if_, fl(p[0]), fl(p[1]))
@@ -162,7 +161,7 @@ def _exact_case(case):
             if F(cf[0]) != cq[0] or F(cf[1]) != cq[1] or not (small_dyadic(cq[0]) and small_dyadic(cq[1])):
                 return False
     mn = min(iq[6], iq[7])
-    for q in case["queries"]:
+    for q in list(case["queries"]) + list(case.get("pre") or []):
         k = q[0]
         if k in ("units", "nd"):
             d = q[-1]
@@ -218,11 +217,12 @@ def seg_meets_box(a, b, x0, x1, y0, y1):
     return t0 <= t1
 
 
-def seg_cells_floor(a, b):
-    """cells (floor x, floor y) of all points of the closed segment [a, b] (Fractions): the cells, half-open
-    [i,i+1)x[j,j+1) as `math.floor` assigns points to them, that contain a point of the segment. The cell of
-    a moving point only changes where a coordinate is an integer: sample those parameters and the midpoints
-    between consecutive ones."""
+def seg_cells_floor(a, b, cs=None, ls=None):
+    """cells of all points of the closed segment [a, b] (Fractions, fractional cell indices). Cells are half-open
+    [i,i+1)x[j,j+1) as `math.floor` assigns points to them; when the grid size (cs, ls) is given the last column / row
+    is closed on the upper border of the extent (a point with x = cs belongs to column cs - 1) and only the points of the
+    segment inside the extent on the upper side (x <= cs, y <= ls) count. The cell of a moving point only changes where
+    a coordinate is an integer: sample those parameters and the midpoints between consecutive ones."""
     (ax, ay), (bx, by) = a, b
     ts = {F(0), F(1)}
     for p0, p1 in ((ax, bx), (ay, by)):
@@ -231,14 +231,24 @@ def seg_cells_floor(a, b):
                 ts.add((k - p0) / (p1 - p0))
     ts = sorted(ts)
     ts += [(u + v) / 2 for u, v in zip(ts, ts[1:])]
-    return {(math.floor(ax + t * (bx - ax)), math.floor(ay + t * (by - ay))) for t in ts}
+    cells = set()
+    for t in ts:
+        x, y = ax + t * (bx - ax), ay + t * (by - ay)
+        i, j = math.floor(x), math.floor(y)
+        if cs is not None:
+            if x > cs or y > ls:
+                continue
+            i, j = min(i, cs - 1), min(j, ls - 1)
+        cells.add((i, j))
+    return cells
 
 
-def seg_cells_mode(a, b, exact):
+def seg_cells_mode(a, b, exact, cs=None, ls=None):
     if exact:
-        return seg_cells_floor(a, b)
+        return seg_cells_floor(a, b, cs, ls)
     cells = seg_cells(a, b)
-    return {(i, j) for (i, j) in cells if seg_meets_box(a, b, i + EPS, i + 1 - EPS, j + EPS, j + 1 - EPS)}
+    return {(i, j) for (i, j) in cells if seg_meets_box(a, b, i + EPS, i + 1 - EPS, j + EPS, j + 1 - EPS)
+            and (cs is None or (i <= cs - 1 and j <= ls - 1))}
 
 
 def d2_point_seg(q, a, b):
@@ -258,11 +268,21 @@ def segments(pts):
     return [(pts[k], pts[k + 1]) for k in range(len(pts) - 1)]
 
 
-def search_segments(case):
+def late_of(case):
+    """the later additions as (feature number, vertices): on a network indexed by Network.createSpatialIndex they go
+    through Network.addEdge, which numbers them itself (the running number of edges)"""
+    late = case.get("late") or []
+    if case.get("net") and (case.get("entry") or "ctor") == "create":
+        n0 = len(case["feats"])
+        return [[n0 + k, t] for k, (_, t) in enumerate(late)]
+    return late
+
+
+def search_segments(queries):
     """(query index, [segments]) of the unit < 0 segment/track neighbourhood searches: their answer depends on the
     cells of the QUERY segments, which are observed too so that the searches can be compared"""
     out = []
-    for n, q in enumerate(case["queries"]):
+    for n, q in enumerate(queries):
         if q[0] == "nseg" and q[5] < 0:
             out.append((n, [(q[1:3], q[3:5])]))
         elif q[0] == "ntrk" and q[1] < 0:
@@ -278,50 +298,64 @@ class P(Prop):
     M = "TracklibVerif.Props.C08"
     theorems = [
         (M, "TV.C08.straddle_necessary", "two closed segments sharing a point pass isSegmentIntersects (val1 <= 0 and val2 <= 0), touching ends and zero-length segments included"),
-        (M, "TV.C08.cells_complete", "a point P of segment [c1,c2] with i <= Px < i+1, j <= Py < j+1 implies (i,j) in __cellsCrossSegment(c1,c2)"),
-        (M, "TV.C08.index_complete", "after SpatialIndex(collection,res,margin>=0) returned, every point of every segment of feature k is inside the extent and the cell containing it lists k"),
-        (M, "TV.C08.point_query_complete", "request(q), q inside the extent, does not raise and returns every feature having a segment point in the cell containing q"),
+        (M, "TV.C08.cells_complete", "a point P of segment [c1,c2] in cell (i,j) — i <= Px < i+1, or i = csize-1 and i <= Px <= csize (last column closed on the upper border), same for j — implies (i,j) in __cellsCrossSegment(c1,c2), segments lying on the upper border included"),
+        (M, "TV.C08.constructor_returns", "SpatialIndex(collection,res,margin) does not raise for a non-empty collection, margin >= 0 (0 included: vertices on the upper border), default or positive cell size, any bounding box (flat, single point, shorter than a cell)"),
+        (M, "TV.C08.collection_create_index", "TrackCollection.createSpatialIndex(resolution, verbose) is SpatialIndex(collection, resolution, margin) with margin = 1 (verbose=True) or 0 (verbose=False): the flag lands in the constructor's margin parameter; both are >= 0, the call returns and every other theorem applies"),
+        (M, "TV.C08.getCell_min_is_identity", "on every index on which nothing raises, __getCell as executed (idx = min((x-xmin)/dX, csize), idy likewise) returns the affine fractional indices: the min only acts on floating-point rounding"),
+        (M, "TV.C08.extent_point_cell", "on a built index every point of the closed extent has a cell (min(floor idx, csize-1), min(floor idy, lsize-1)) inside the grid whose closed square contains it; only the last column/row is closed on the upper side"),
+        (M, "TV.C08.index_complete", "after SpatialIndex(collection,res,margin>=0), every point of every segment of feature k is inside the extent and the cell containing it lists k (upper-border vertices included)"),
+        (M, "TV.C08.point_query_complete", "request(q) for EVERY q of the closed extent does not raise and returns every feature having a segment point in the cell containing q"),
         (M, "TV.C08.segment_query_complete", "a returned request([Q1,Q2]) contains every feature listed in the cell of any point of the query segment"),
-        (M, "TV.C08.segment_query_returns", "request([Q1,Q2]) does not raise when both ends are inside the extent and strictly below its upper borders"),
+        (M, "TV.C08.segment_query_returns", "request([Q1,Q2]) does not raise when both ends are inside the closed extent (upper border included)"),
         (M, "TV.C08.track_query_complete", "a returned request(track) contains every feature listed in the cell of any point of any segment of the query track"),
-        (M, "TV.C08.units_sound", "with positive cell sides groundDistanceToUnits(d) returns floor(d/min(dX,dY)+1) and points at most d apart on each axis fall in cells whose column/row indices differ by at most that many units"),
+        (M, "TV.C08.track_query_returns", "request(track) does not raise when every vertex of the query track is inside the closed extent"),
+        (M, "TV.C08.units_sound", "with positive cell sides groundDistanceToUnits(d) returns floor(d/min(dX,dY)+1) and points at most d apart on each axis fall in cells whose column/row indices (floors, and the clamped cell indices) differ by at most that many units"),
         (M, "TV.C08.neighboringCells_square", "__neighboringcells(i,j,u) is exactly the Chebyshev square of radius u around (i,j) clipped to the grid"),
-        (M, "TV.C08.neighborhood_complete", "groundDistanceToUnits(d) and neighborhood(q, unit=groundDistanceToUnits(d)), q inside the extent, d >= 0, do not raise and every feature with a point within Euclidean distance d of q is returned"),
-        (M, "TV.C08.vertex_on_upper_border_raises", "formal side of finding D10: if the constructor returns, no point of a feature segment has x = xmax or y = ymax (so with margin 0 a right-/top-most vertex of a 2+-point track makes it raise)"),
-        (M, "TV.C08.point_query_on_upper_border_raises", "formal side of finding query-on-upper-border: request(q) with q.x = xmax or q.y = ymax raises on every built index: IndexError when the extent is not flat, ZeroDivisionError (in __getCell) when it is"),
-        (M, "TV.C08.default_resolution_builds", "the repair 9a44198: default resolution, margin >= 0, bounding box not a single point: __init__ reaches the registration loop without raising for every aspect ratio, with >= 1 column and >= 1 row and a positive cell side on every axis of positive length"),
-        (M, "TV.C08.flat_extent_raises", "formal side of finding default-resolution-flat-extent: if the constructor returns over a collection that has a segment then xmin < xmax, ymin < ymax and no cell side is 0 (so a straight east-west or north-south track makes it raise ZeroDivisionError)"),
+        (M, "TV.C08.neighborhood_finds_registered", "on any index on which nothing raises (built, or built and then extended by addFeature / Network.addEdge), neighborhood(q, unit=groundDistanceToUnits(d)) returns every feature listed in the cell of a point of the extent within distance d of q: the answer depends on the grid as it is now only"),
+        (M, "TV.C08.neighborhood_complete", "groundDistanceToUnits(d) and neighborhood(q, unit=groundDistanceToUnits(d)), EVERY q of the closed extent, d >= 0, do not raise and every feature with a point within Euclidean distance d of q is returned"),
+        (M, "TV.C08.late_feature_complete", "addFeature(track, num) on an existing index (= Network.addEdge on an indexed network), all vertices inside the extent: returns, keeps extent / dimensions / everything registered before, every point of the track lies in a cell listing num, a point request there and a neighbourhood query from a ground distance d around any q within d of the track return num"),
+        (M, "TV.C08.built_index_good", "a built index satisfies the hypotheses (Good, Tiled) of late_feature_complete, which keeps them: the theorem applies to any sequence of later additions"),
+        (M, "TV.C08.grid_always_builds", "the repairs 9a44198 and degenerate-extent: default or positive explicit cell size, ANY bounding box (thin, flat, a single point, shorter than the cell size): __init__ reaches the registration loop without raising, with >= 1 column and >= 1 row, positive cell sides, cells tiling every axis of positive length exactly and one column / row on an axis of zero length"),
+        (M, "TV.C08.flat_axis_single_column", "on a built index whose extent has zero length along an axis (a straight north-south or east-west track) that axis has one column / row and every point of the extent has index 0 on it"),
         (M, "TV.C08.isFloor_ratFloor", "Rat.floor, the driver's math.floor, satisfies the floor contract assumed by the theorems"),
     ]
     partial = []
     open_statements = [
-        "theorems are over an ordered field with an exact floor: IEEE rounding in (x-xmin)/dX and in the straddle products is outside them (sampled by the flt stream with a 1e-7-cell guard)",
-        "segment_query_complete / track_query_complete are conditional on the request returning (a query touching the upper border of the extent raises IndexError: finding query-on-upper-border)",
-        "index_complete and the theorems built on it speak about constructor calls that return: with margin 0 none does (finding vertex-on-upper-border), nor over a flat extent (all vertices on one horizontal or vertical line) when a feature has a segment (finding default-resolution-flat-extent, theorem flat_extent_raises); thin extents with the default resolution are ordinary since 9a44198 (theorem default_resolution_builds)",
+        "theorems are over an ordered field with an exact floor: IEEE rounding in (x-xmin)/dX and in the straddle products is outside them (sampled by the flt stream with a 1e-7-cell guard); the one rounding situation met — the index of x = xmax exceeding csize by an ulp, so that a segment lying on the border was registered nowhere — is removed by the cap min(index, csize) of __getCell (identity in exact arithmetic: getCell_min_is_identity) and generated on purpose by the float stream",
         "the unit = -1 incremental searches of neighborhood and the given-unit segment/track neighbourhoods are modelled and compared with the implementation, no theorem is stated about them (the property does not mention them)",
+        "later addFeature calls with a vertex OUTSIDE the extent are modelled and compared (the `continue` that keeps a stale coord1 and so registers a chord instead of the two legs), no theorem is stated about them: late_feature_complete is about additions inside the extent",
     ]
-    modelled = ("SpatialIndex.__init__ (extent from bbox + margin, explicit and default resolution), __getCell, "
-                "__cellsCrossSegment, __addSegment, addFeature, request (cell/point/segment/track), __neighboringcells, "
+    modelled = ("TrackCollection.createSpatialIndex (its verbose flag becomes the constructor's margin) and Network.createSpatialIndex as front ends, Network.addEdge on an indexed network (= addFeature with the running edge number); "
+                "SpatialIndex.__init__ (extent from bbox + margin, explicit and default resolution, one column / row and a non-zero cell side on a degenerate axis), __getCell, "
+                "__cellsCrossSegment (index box clamped to the last column / row), __getCell with its cap min(index, size), __addSegment, addFeature, request (cell/point/segment/track; the point form with the clamped cell), __neighboringcells, "
                 "neighborhood (cell/point/segment/track; unit >= 0 and the incremental unit = -1 search), "
                 "groundDistanceToUnits, __addCellValuesInTAB of core/spatial_index.py; cartesienne, __eval, "
                 "isSegmentIntersects of util/geometry.py; TrackCollection/Network bbox as min/max of the vertices")
     trusted = ["correspondence relation: implementation ⊇ model on every returned list of features / cells and on cell contents (extras are permitted by the property; "
                "the theorems show the model omits nothing, so any superset omits nothing), equality on extent, cell size, units, None-ness and exceptions",
+               "sessions: the model is a pure function of (collection, later additions), run once for the state after construction and once for the state after the additions; that the implementation's answers "
+               "depend on nothing else (no cache, no state left by earlier queries) is exactly what the correspondence and the oracle test on one object",
                "mode flt: the Float instantiation of the model reproduces Python's doubles operation by operation; "
                "rounding is outside the theorems, the flt-mode oracle keeps a guard of 1e-7 cell around cell borders"]
-    rule = ("exhaustive: every segment between points of a half-integer lattice through __cellsCrossSegment, every 2-vertex track of a "
-            "small lattice indexed and queried at every lattice point of the extent; random: 1-3 features (tracks or network edges) of 2-4 "
-            "vertices on a half-integer lattice, square / non-square / default resolutions (the latter with aspect ratios from 1 to 400, i.e. down to one row or column), margins 1/2, 1/20, 1/4, 0, lattice queries "
-            "(points, segments, tracks, cells, neighbourhoods in units and from ground distances 0..grid size), later addFeature calls; "
-            "plus a float stream with random coordinates. non-trivial = the index is built (or its construction is the finding) and at "
+    rule = ("exhaustive: every segment between points of a half-integer lattice through __cellsCrossSegment (coordinates beyond the 4 x 4 grid included: the clamp), every 2-vertex track of a "
+            "small lattice (axis-parallel ones included: flat extents) indexed with margin 1/2 and margin 0 and queried at every lattice point of the CLOSED extent (upper border included); "
+            "random: 1-3 features (tracks or network edges) of 2-4 "
+            "vertices on a half-integer lattice, square / non-square / default resolutions (the latter with aspect ratios from 1 to 400, i.e. down to one row or column; explicit cells up to larger than the extent), "
+            "about 7 % degenerate extents (all vertices on one vertical or horizontal line, or at one point), margins 1/2, 1/20, 1/4, 0 (17 %), lattice queries of the closed extent, 10-35 % of them on its upper border "
+            "(points, segments, tracks, cells, neighbourhoods in units and from ground distances 0..grid size); sessions on one index object: 22 % of the cases add 1-2 features after construction "
+            "(addFeature, or Network.addEdge on a network indexed by Network.createSpatialIndex), most of those ask every query both before and after the additions, 20 % ask some query twice; "
+            "15 % of the indexes are made by TrackCollection.createSpatialIndex / Network.createSpatialIndex, 10 % of the sessions give query points as GeoCoords; "
+            "plus a float stream with random coordinates (margin 0 in 2 cases of 7, half of those with a feature lying on the upper border of the extent and a cell size chosen so that the border index "
+            "A / (A / n) rounds above n; a quarter of the query points are feature vertices). non-trivial = the index is built and at "
             "least one feature segment and one query are present")
 
     # ------------------------------------------------------------------ setup
     def setup(self):
-        from tracklib.core import ENUCoords, Obs, ObsTime, Track, TrackCollection
+        from tracklib.core import ENUCoords, GeoCoords, Obs, ObsTime, Track, TrackCollection
         from tracklib.core.spatial_index import SpatialIndex
         from tracklib.core.network import Network, Edge, Node
         self.E, self.Obs, self.T0, self.Track, self.TC = ENUCoords, Obs, ObsTime, Track, TrackCollection
+        self.G = GeoCoords
         self.SI, self.Network, self.Edge, self.Node = SpatialIndex, Network, Edge, Node
 
     def mk(self, pts):
@@ -342,26 +376,31 @@ class P(Prop):
         return self.TC([self.mk(pts) for pts in case["feats"]])
 
     # ------------------------------------------------------------------ implementation
-    def impl(self, case):
-        coll = self.collection(case)
+    def build_index(self, case, coll):
         res = None if case["res"] is None else (fl(case["res"][0]), fl(case["res"][1]))
-        si = self.SI(coll, resolution=res, margin=fl(case["margin"]), verbose=False)
-        try:
-            for num, pts in case.get("late", []):
-                si.addFeature(self.mk(pts), num)
-        except Exception as e:
-            return {"err": err_kind(e), "late": True}
-        out = {"info": [float(si.xmin), float(si.xmax), float(si.ymin), float(si.ymax), si.csize, si.lsize,
-                        float(si.dX), float(si.dY)]}
+        entry = case.get("entry") or "ctor"
+        if entry == "ctor":
+            return self.SI(coll, resolution=res, margin=fl(case["margin"]), verbose=False)
+        if case.get("net"):
+            coll.createSpatialIndex(res, fl(case["margin"]), False)
+        else:
+            # createSpatialIndex(resolution, verbose): the flag is what the constructor receives as its margin
+            if str(case["margin"]) not in ("0", "1"):
+                raise ValueError("TrackCollection.createSpatialIndex: the margin is the verbose flag")
+            coll.createSpatialIndex(res, verbose=(str(case["margin"]) == "1"))
+        return coll.spatial_index
+
+    def snapshot(self, si):
         grid = {}
         for i, col in enumerate(si.grid):
             for j, c in enumerate(col):
                 if c:
                     grid["%d:%d" % (i, j)] = sorted(c)
-        out["grid"] = grid
-        out["q"] = [self.run_query(si, q) for q in case["queries"]]
+        return grid
+
+    def search_cells(self, si, case, queries):
         sc = {}
-        for n, segs in search_segments(case):
+        for n, segs in search_segments(queries):
             cells = []
             for a, b in segs:
                 try:
@@ -372,11 +411,45 @@ class P(Prop):
                 except Exception as e:
                     cells.append({"err": err_kind(e)})
             sc[str(n)] = cells
-        out["scells"] = sc
+        return sc
+
+    def impl(self, case):
+        coll = self.collection(case)
+        si = self.build_index(case, coll)
+        info = [float(si.xmin), float(si.xmax), float(si.ymin), float(si.ymax), si.csize, si.lsize, float(si.dX), float(si.dY)]
+        geo = bool(case.get("geo"))
+        out = {}
+        pre = case.get("pre") or []
+        if pre:
+            # queries on the index as constructed, BEFORE the later additions (same object)
+            out["pre"] = {"info": info, "grid": self.snapshot(si), "q": [self.run_query(si, q, geo) for q in pre],
+                          "scells": self.search_cells(si, case, pre)}
+        try:
+            for num, pts in late_of(case):
+                if case.get("net") and (case.get("entry") or "ctor") == "create":
+                    # Network.addEdge on an indexed network registers the new edge in the index under its running number
+                    k = coll.getNumberOfEdges()
+                    if k != num:
+                        raise ValueError("late edge number %d, the network has %d edges" % (num, k))
+                    e = self.Edge("e%d" % k, self.mk(pts))
+                    a = self.Node("n%da" % k, self.E(fl(pts[0][0]), fl(pts[0][1]), 0.0))
+                    b = self.Node("n%db" % k, self.E(fl(pts[-1][0]), fl(pts[-1][1]), 0.0))
+                    coll.addEdge(e, a, b)
+                else:
+                    si.addFeature(self.mk(pts), num)
+        except ValueError:
+            raise
+        except Exception as e:
+            return {"err": err_kind(e), "late": True}
+        out["info"] = info
+        out["grid"] = self.snapshot(si)
+        out["q"] = [self.run_query(si, q, geo) for q in case["queries"]]
+        out["scells"] = self.search_cells(si, case, case["queries"])
         return out
 
-    def run_query(self, si, q):
-        E = self.E
+    def run_query(self, si, q, geo=False):
+        # request / neighborhood accept GeoCoords as well as ENUCoords (getX / getY are lon / lat)
+        E = self.G if geo else self.E
         try:
             k = q[0]
             if k == "cell":
@@ -407,7 +480,7 @@ class P(Prop):
                 cells = si._SpatialIndex__cellsCrossSegment((fl(q[1]), fl(q[2])), (fl(q[3]), fl(q[4])))
                 return sorted([int(c[0]), int(c[1])] for c in cells)
             if k == "getcell":
-                c = si._SpatialIndex__getCell(E(fl(q[1]), fl(q[2]), 0.0))
+                c = si._SpatialIndex__getCell(self.E(fl(q[1]), fl(q[2]), 0.0))
                 return None if c is None else [float(c[0]), float(c[1])]
             if k == "inter":
                 from tracklib.util import isSegmentIntersects
@@ -421,6 +494,8 @@ class P(Prop):
 
     # ------------------------------------------------------------------ model
     def requests(self, case):
+        """one driver line for the state after the later additions, preceded (when the session has `pre` queries) by one
+        for the state right after construction: the model is pure, the implementation runs both on one object"""
         exact = exact_case(case)
         if exact:
             num = lambda v: ratstr(fr(v))
@@ -431,27 +506,43 @@ class P(Prop):
         tr = lambda pts: ";".join("%s,%s" % (num(p[0]), num(p[1])) for p in pts) if pts else "_"
         feats = "|".join(tr(f) for f in case["feats"]) if case["feats"] else "_"
         res = "none" if case["res"] is None else "%s,%s" % (num(case["res"][0]), num(case["res"][1]))
-        late = "|".join("%d@%s" % (n, tr(t)) for n, t in case.get("late", [])) or "_"
-        qs = ["info", "grid"]
-        for q in case["queries"]:
-            k = q[0]
-            if k in ("cell", "ncell"):
-                qs.append(";".join([k] + [str(v) for v in q[1:]]))
-            elif k in ("npt", "nseg"):
-                qs.append(";".join([k] + [num(v) for v in q[1:-1]] + [str(q[-1])]))
-            elif k == "trk":
-                qs.append(";".join([k] + [num(v) for p in q[1] for v in p]))
-            elif k == "ntrk":
-                qs.append(";".join([k, str(q[1])] + [num(v) for p in q[2] for v in p]))
-            else:
-                qs.append(";".join([k] + [num(v) for v in q[1:]]))
-        for n, segs in search_segments(case):
-            for a, b in segs:
-                qs.append(";".join(["gcross", num(a[0]), num(a[1]), num(b[0]), num(b[1])]))
-        return ["C08.run %s %s %s %s %s %s" % (mode, feats, res, num(case["margin"]), late, "|".join(qs))]
+        if (case.get("entry") or "ctor") == "create" and not case.get("net"):
+            margin = "tc:%s" % case["margin"]          # TrackCollection.createSpatialIndex(res, verbose)
+        else:
+            margin = num(case["margin"])
+
+        def line(late_list, queries):
+            late = "|".join("%d@%s" % (n, tr(t)) for n, t in late_list) or "_"
+            qs = ["info", "grid"]
+            for q in queries:
+                k = q[0]
+                if k in ("cell", "ncell"):
+                    qs.append(";".join([k] + [str(v) for v in q[1:]]))
+                elif k in ("npt", "nseg"):
+                    qs.append(";".join([k] + [num(v) for v in q[1:-1]] + [str(q[-1])]))
+                elif k == "trk":
+                    qs.append(";".join([k] + [num(v) for p in q[1] for v in p]))
+                elif k == "ntrk":
+                    qs.append(";".join([k, str(q[1])] + [num(v) for p in q[2] for v in p]))
+                else:
+                    qs.append(";".join([k] + [num(v) for v in q[1:]]))
+            for n, segs in search_segments(queries):
+                for a, b in segs:
+                    qs.append(";".join(["gcross", num(a[0]), num(a[1]), num(b[0]), num(b[1])]))
+            return "C08.run %s %s %s %s %s %s" % (mode, feats, res, margin, late, "|".join(qs))
+        lines = []
+        if case.get("pre"):
+            lines.append(line([], case["pre"]))
+        lines.append(line(late_of(case), case["queries"]))
+        return lines
 
     def decode(self, case, replies):
-        r = replies[0]
+        out = self.decode_reply(case, case["queries"], replies[-1])
+        if case.get("pre") and "err" not in out:
+            out["pre"] = self.decode_reply(case, case["pre"], replies[0])
+        return out
+
+    def decode_reply(self, case, queries, r):
         if r == "bad-request":
             raise ValueError("bad-request")
         exact = exact_case(case)
@@ -461,10 +552,10 @@ class P(Prop):
         if r.startswith("err:"):
             return {"err": r}
         parts = r.split("|")
-        ss = search_segments(case)
+        ss = search_segments(queries)
         nextra = sum(len(segs) for _, segs in ss)
-        if len(parts) != len(case["queries"]) + 2 + nextra:
-            raise ValueError("reply has %d parts for %d queries" % (len(parts), len(case["queries"])))
+        if len(parts) != len(queries) + 2 + nextra:
+            raise ValueError("reply has %d parts for %d queries" % (len(parts), len(queries)))
         info = parts[0].split(",")
         out = {"info": [val(info[0]), val(info[1]), val(info[2]), val(info[3]), int(info[4]), int(info[5]), val(info[6]), val(info[7])]}
         grid = {}
@@ -476,13 +567,13 @@ class P(Prop):
         nats = lambda t: [] if t == "_" else sorted(int(v) for v in t.split(","))
         qo = []
         cellsof = lambda t: [] if t == "_" else sorted([int(c.split(":")[0]), int(c.split(":")[1])] for c in t.split(";"))
-        extra = parts[2 + len(case["queries"]):]
+        extra = parts[2 + len(queries):]
         sc, pos = {}, 0
         for n, segs in ss:
             sc[str(n)] = [None if t == "none" else {"err": t} if t.startswith("err:") else cellsof(t) for t in extra[pos:pos + len(segs)]]
             pos += len(segs)
         out["scells"] = sc
-        for q, t in zip(case["queries"], parts[2:2 + len(case["queries"])]):
+        for q, t in zip(queries, parts[2:2 + len(queries)]):
             k = q[0]
             if t.startswith("err:"):
                 qo.append({"err": t})
@@ -507,6 +598,15 @@ class P(Prop):
         return out
 
     def compare(self, case, impl_out, model_out):
+        if ("pre" in impl_out) != ("pre" in model_out):
+            return "session: impl=%s model=%s" % (str(impl_out)[:200], str(model_out)[:200])
+        if "pre" in impl_out:
+            m = self.compare_state(case, case["pre"], impl_out["pre"], model_out["pre"])
+            if m:
+                return "before the later additions: " + m
+        return self.compare_state(case, case["queries"], impl_out, model_out)
+
+    def compare_state(self, case, queries, impl_out, model_out):
         if "err" in impl_out or "err" in model_out:
             if impl_out.get("err") == model_out.get("err") and impl_out.get("late") == model_out.get("late"):
                 return None
@@ -537,7 +637,7 @@ class P(Prop):
             if isinstance(b, list) and isinstance(a, list):
                 return all(x in a for x in b)
             return close(a, b, self.rel_tol)
-        for n, (q, a, b) in enumerate(zip(case["queries"], io["q"], mo["q"])):
+        for n, (q, a, b) in enumerate(zip(queries, io["q"], mo["q"])):
             search = q[0] in ("ncell", "npt", "nseg", "ntrk") and (q[-1] if q[0] != "ntrk" else q[1]) < 0
             if search:
                 same_cells = io.get("scells", {}).get(str(n)) == mo.get("scells", {}).get(str(n))
@@ -553,20 +653,19 @@ class P(Prop):
     # ------------------------------------------------------------------ oracle (transfer)
     def precondition(self, case):
         """the configurations the property quantifies over: a non-empty feature set with at least one segment,
-        margin >= 0, and either the default resolution or an explicit cell size that is positive and not larger
-        than the extent (so that at least one cell exists)"""
+        margin >= 0, and either the default resolution or an explicit positive cell size (a cell size larger than the
+        extent is legitimate: one column / row). Flat extents (all vertices on one horizontal or vertical line) and
+        single-point bounding boxes are ordinary feature sets."""
         if not case["feats"] or any(len(f) < 1 for f in case["feats"]) or not any(len(f) >= 2 for f in case["feats"]):
             return False
         if fr(case["margin"]) < 0:
             return False
-        bb = case_bbox(case)
-        m = fr(case["margin"])
-        ax = (bb[1] - bb[0]) * (1 + 2 * m)
-        ay = (bb[3] - bb[2]) * (1 + 2 * m)
+        if (case.get("entry") or "ctor") == "create" and not case.get("net") and str(case["margin"]) not in ("0", "1"):
+            return False       # not a session this harness can run: TrackCollection.createSpatialIndex has no margin argument
         if case["res"] is None:
             return True
         rx, ry = fr(case["res"][0]), fr(case["res"][1])
-        return 0 < rx <= ax and 0 < ry <= ay
+        return 0 < rx and 0 < ry
 
     def spec(self, case, out):
         f = self.first_failure(case, out)
@@ -576,6 +675,11 @@ class P(Prop):
         """None, or (tag, query index or None, message) for the first way `out` violates the property"""
         if not self.precondition(case):
             return None
+        if isinstance(out, dict) and "pre" in out:
+            # the index as constructed, queried before the later additions
+            r = self._failure(dict(case, late=[], queries=case["pre"]), out["pre"])
+            if r is not None:
+                return (r[0], r[1], "before the later additions: " + r[2])
         r = self._failure(case, out)
         return r
 
@@ -601,13 +705,26 @@ class P(Prop):
         for p in (p for _, f in feats for p in f):
             if not inside(p):
                 return ("grid", None, "vertex %s is outside the extent %s" % (p, out["info"][:4]))
-        feats += [(n, t) for n, t in case.get("late", []) if all(inside(p) for p in t)]
+        feats += [(n, t) for n, t in late_of(case) if all(inside(p) for p in t)]
         expected = {}
         for k, f in feats:
             for a, b in segments(f):
-                for (i, j) in seg_cells_mode(g(a), g(b), exact):
+                for (i, j) in seg_cells_mode(g(a), g(b), exact, cs, ls):
                     if 0 <= i < cs and 0 <= j < ls:
                         expected.setdefault((i, j), set()).add(k)
+        if not exact:
+            # feature segments lying ON the upper border of the extent (with margin 0 xmax / ymax are vertex coordinates): a
+            # point whose abscissa IS xmax belongs to the last column whatever rounding does to its computed index
+            # (the exact mode gets this from seg_cells_floor). Rows / columns are taken with the guard.
+            for k, f in feats:
+                for a, b in segments(f):
+                    ga, gb = g(a), g(b)
+                    for ax_, lim, n_, m_ in ((0, xmax, cs, ls), (1, ymax, ls, cs)):
+                        if val(a[ax_]) == lim and val(b[ax_]) == lim:
+                            lo, hi = min(ga[1 - ax_], gb[1 - ax_]), max(ga[1 - ax_], gb[1 - ax_])
+                            for t in range(max(0, math.floor(lo)), min(m_ - 1, math.floor(hi)) + 1):
+                                if max(lo, t + EPS) <= min(hi, t + 1 - EPS):
+                                    expected.setdefault((n_ - 1, t) if ax_ == 0 else (t, n_ - 1), set()).add(k)
         for (i, j), s in sorted(expected.items()):
             miss = s - grid.get((i, j), set())
             if miss:
@@ -630,11 +747,15 @@ class P(Prop):
                 if not inside(q[1:3]):
                     continue
                 c = g(q[1:3])
-                if near_border(c[0]) or near_border(c[1]):
-                    continue
                 if isr:
                     return ("query-raised", n, "request(point %s) raised %s for a point inside the extent" % (q[1:3], r["err"]))
-                i, j = math.floor(c[0]), math.floor(c[1])
+                # a point whose abscissa IS xmax is in the last column whatever its computed index rounds to
+                bx, by_ = val(q[1]) == xmax, val(q[2]) == ymax
+                if (near_border(c[0]) and not bx) or (near_border(c[1]) and not by_):
+                    continue
+                # the cell containing the point: the last column / row owns the upper border of the extent
+                i = cs - 1 if bx else min(math.floor(c[0]), cs - 1)
+                j = ls - 1 if by_ else min(math.floor(c[1]), ls - 1)
                 miss = expected.get((i, j), set()) - set(r)
                 if miss:
                     return ("omission", n, "request(point %s) omits feature %d which has a segment through the cell (%d,%d) containing the point" % (q[1:3], min(miss), i, j))
@@ -646,7 +767,7 @@ class P(Prop):
                     return ("query-raised", n, "request(%s %s) raised %s for a query inside the extent" % (k, pts, r["err"]))
                 want = set()
                 for a, b in segments(pts):
-                    for cell in seg_cells_mode(g(a), g(b), exact):
+                    for cell in seg_cells_mode(g(a), g(b), exact, cs, ls):
                         want |= grid.get(cell, set()) | expected.get(cell, set())
                 miss = want - set(r)
                 if miss:
@@ -674,53 +795,22 @@ class P(Prop):
                 if isr:
                     return ("query-raised", n, "__cellsCrossSegment(%s) raised %s" % (q[1:], r["err"]))
                 got = {(c[0], c[1]) for c in r}
-                miss = seg_cells_mode(a, b, exact) - got
+                miss = seg_cells_mode(a, b, exact, cs, ls) - got
                 if miss:
                     return ("omission", n, "__cellsCrossSegment(%s): the segment meets cell %s, which is not returned" % (q[1:], sorted(miss)[0]))
         return None
 
     # ------------------------------------------------------------------ known-finding classes
     def classify(self, case, impl_out, msg):
-        """classes of the listed findings, each a decidable predicate on the case and the first failure:
-        vertex-on-upper-border: margin 0 and construction raises IndexError (a vertex with x = xmax or y = ymax of the
-            extent gets column/row index csize/lsize)
-        default-resolution-flat-extent: resolution None, all vertices on one horizontal or vertical line (a side of the
-            bounding box is 0) and construction raises ZeroDivisionError (cell side 0 in __getCell, or r = 0 when the
-            bounding box is a single point)
-        query-on-upper-border: a point/segment/track request having a point with x = xmax or y = ymax raises IndexError"""
-        if not isinstance(impl_out, dict):
-            return None
-        f = self.first_failure(case, impl_out)
-        if f is None:
-            return None
-        tag, n, _ = f
-        tw = exact_twin(case)
-        if tag == "construction":
-            if impl_out["err"] == "err:zerodiv" and case["res"] is None and (tw == "zerodiv" or flat_grid(tw)):
-                bb = case_bbox(case)
-                if bb[1] == bb[0] or bb[3] == bb[2]:
-                    return "default-resolution-flat-extent"
-            if impl_out["err"] == "err:index" and tw not in (None, "zerodiv") and fr(case["margin"]) == 0:
-                xmax, ymax = tw[1], tw[3]
-                pts = [p for f in case["feats"] for p in f]
-                if any(fr(p[0]) == xmax or fr(p[1]) == ymax for p in pts):
-                    return "vertex-on-upper-border"
-            return None
-        if tag == "query-raised" and n is not None:
-            q, r = case["queries"][n], impl_out["q"][n]
-            if isinstance(r, dict) and r.get("err") == "err:index" and q[0] in ("pt", "seg", "trk"):
-                xmax, ymax = F(impl_out["info"][1]), F(impl_out["info"][3])
-                val = fr if exact_case(case) else (lambda v: F(fl(v)))
-                pts = [q[1:3]] if q[0] == "pt" else [q[1:3], q[3:5]] if q[0] == "seg" else q[1]
-                if any(val(p[0]) == xmax or val(p[1]) == ymax for p in pts):
-                    return "query-on-upper-border"
+        """no finding of C08 is left open: the classes vertex-on-upper-border, query-on-upper-border and
+        default-resolution-flat-extent were removed with their repairs (a failure of one of those kinds is a violation)"""
         return None
 
     # ------------------------------------------------------------------ generators
     def exhaustive_scopes(self, tier):
         n = 7 if tier == "quick" else 9
-        return ["__cellsCrossSegment on every ordered pair of points of the half-integer lattice {0,1/2,..,%s}^2 (%d segments), exact oracle" % ((n - 1) / 2, n ** 4),
-                "every 2-vertex track between points of {0,1/2,..,%s}^2 with non-degenerate bbox, margin 1/2, cell sizes (1/2|1|2)x(1/2|1|2) where exact, point query at every half-integer point of the extent"
+        return ["__cellsCrossSegment on every ordered pair of points of the half-integer lattice {0,1/2,..,%s}^2 (%d segments) of a grid of that many cells per side (upper border included), exact oracle" % ((n - 1) / 2, n ** 4),
+                "every 2-vertex track between two different points of {0,1/2,..,%s}^2 (flat bounding boxes included), margin 1/2 and margin 0, cell sizes (1/2|1|2)x(1/2|1|2) where exact, point query at every half-integer point of the closed extent (upper border included)"
                 % (2 if tier == "quick" else 3)]
 
     def lattice_queries(self, tw, rng, feats, tier, step=F(1, 2), full=False):
@@ -732,15 +822,18 @@ class P(Prop):
         Pin = lambda: [float(xmin + step * rng.randrange(0, max(1, nx))), float(ymin + step * rng.randrange(0, max(1, ny)))]
         qs = []
         if full:
-            border = 1 if rng.random() < 0.03 else 0
-            for a in range(nx + border):
-                for b in range(ny + border):
+            # every lattice point of the closed extent, its upper border included (a flat axis has nx = 0: the one
+            # abscissa xmin = xmax)
+            for a in range(nx + 1):
+                for b in range(ny + 1):
                     qs.append(["pt", float(xmin + step * a), float(ymin + step * b)])
             return qs
         size = float(max(xmax - xmin, ymax - ymin))
         dists = [0, 0.5, 1, 1.5, 2, 2.5, 3, 4, 5, 6.5, 7.5, 10, 12.5, 13]
+        Pin_, bq = Pin, (0.35 if rng.random() < 0.5 else 0.1)
+        Pin = lambda: P() if rng.random() < bq else Pin_()       # points of the closed extent: the upper border too
         for _ in range(rng.randrange(4, 9)):
-            p = Pin() if rng.random() < 0.9 else P()
+            p = Pin()
             r = rng.random()
             if r < 0.25:
                 qs.append(["pt"] + p)
@@ -778,9 +871,14 @@ class P(Prop):
     def lattice_case(self, rng, tier):
         """1-3 features of 2-4 vertices on a half-integer lattice, a configuration on which floats are exact"""
         for _ in range(40):
-            margin = rng.choice(["1/2"] * 10 + ["1/20"] * 8 + ["1/4"] * 3 + ["0"])
+            margin = rng.choice(["1/2"] * 9 + ["1/20"] * 7 + ["1/4"] * 3 + ["0"] * 4)
+            net = rng.random() < 0.25
+            entry = "create" if rng.random() < 0.15 else "ctor"
+            tc_create = entry == "create" and not net
+            if tc_create:
+                margin = rng.choice(["0", "1"])      # TrackCollection.createSpatialIndex(res, verbose): the flag is the margin
             r = rng.random()
-            default = r < 0.08
+            default = r < 0.08 and not tc_create
             thin = default and rng.random() < 0.5
             if thin:
                 # default resolution on a thin extent (ordinary since 9a44198): long side 8 lattice units, short side
@@ -798,6 +896,16 @@ class P(Prop):
                     W, H = rng.choice([5, 10, 20]), rng.choice([5, 10, 20])
                 else:
                     W, H = rng.choice([1, 2, 3, 4, 6, 8, 2.5, 5]), rng.choice([1, 2, 3, 4, 6, 8, 2.5, 5])
+            # degenerate extents (ordinary inputs since the degenerate-extent repair): all vertices on one vertical or
+            # horizontal line (a straight east-west track), or all at one point
+            degen = rng.random() if not thin else 1.0
+            if degen < 0.07:
+                if degen < 0.03:
+                    W = 0
+                elif degen < 0.06:
+                    H = 0
+                else:
+                    W = H = 0
             feats = [[[rng.randrange(0, int(2 * W) + 1) / 2, rng.randrange(0, int(2 * H) + 1) / 2] for _ in range(rng.randrange(*nv))]
                      for _ in range(nf)]
             # make the bbox exactly W x H
@@ -806,10 +914,14 @@ class P(Prop):
             rng.choice([p for p in flat if p[0] != 0.0] or flat)[0] = float(W)
             rng.choice(flat)[1] = 0.0
             rng.choice([p for p in flat if p[1] != 0.0] or flat)[1] = float(H)
+            if degen < 0.07 and rng.random() < 0.5:
+                # not at the origin
+                ox, oy = rng.randrange(-6, 7) / 2, rng.randrange(-6, 7) / 2
+                feats = [[[p[0] + ox, p[1] + oy] for p in f] for f in feats]
             if default:
                 res = None
                 # default resolution is exact when the larger side of the extent is 25, 50 or 100
-                k = rng.choice([12.5, 25, 50]) / max(W, H)
+                k = rng.choice([12.5, 25, 50]) / max(W, H) if max(W, H) > 0 else 1
                 feats = [[[p[0] * k, p[1] * k] for p in f] for f in feats]
                 if thin:
                     # squash the short axis: its extent becomes 1/4, 1/2, 1, 2 or 4 times r = (long extent)/100,
@@ -823,68 +935,128 @@ class P(Prop):
                 s = rng.choice([0.5, 1, 2])
                 res = [s, s]
             else:
-                res = [rng.choice([0.25, 0.5, 1, 2, 4]), rng.choice([0.25, 0.5, 1, 2, 4])]
-            case = {"kind": "lattice", "net": rng.random() < 0.25, "feats": feats, "res": res, "margin": margin, "late": [], "queries": []}
+                # non-square cells, up to larger than the extent on an axis (then one column / row)
+                res = [rng.choice([0.25, 0.5, 1, 2, 4, 8, 16]), rng.choice([0.25, 0.5, 1, 2, 4, 8, 16])]
+            case = {"kind": "lattice", "net": net, "feats": feats, "res": res, "margin": margin, "late": [], "queries": []}
+            if entry != "ctor":
+                case["entry"] = entry
+            if rng.random() < 0.1:
+                case["geo"] = True
             tw = exact_twin(case)
-            if tw in (None, "zerodiv") or flat_grid(tw):
-                if rng.random() < 0.05 and exact_case(case):
-                    return case
+            if tw in (None, "zerodiv"):
                 continue
             if res is not None and tw[4] * tw[5] > 1600:
                 continue
-            if rng.random() < 0.12:
+            if rng.random() < 0.22:
                 n0 = len(feats)
                 late = []
-                for _ in range(rng.randrange(1, 3)):
-                    num = rng.choice([n0, n0 + 1, 0])
-                    pts = [[float(tw[0] + F(1, 2) * rng.randrange(-2, int((tw[1] - tw[0]) * 2) + 2)),
-                            float(tw[2] + F(1, 2) * rng.randrange(-2, int((tw[3] - tw[2]) * 2) + 2))] for _ in range(rng.randrange(2, 5))]
+                for k in range(rng.randrange(1, 3)):
+                    num = rng.choice([n0, n0 + 1, 0]) if not (net and entry == "create") else n0 + k
+                    out_ = 0 if rng.random() < 0.6 else 2        # 60 %: every vertex inside the extent
+                    pts = [[float(tw[0] + F(1, 2) * rng.randrange(-out_, int((tw[1] - tw[0]) * 2) + out_ + 1)),
+                            float(tw[2] + F(1, 2) * rng.randrange(-out_, int((tw[3] - tw[2]) * 2) + out_ + 1))] for _ in range(rng.randrange(2, 5))]
                     late.append([num, pts])
                 case["late"] = late
             step = F(1, 2) if res is not None else min(tw[6], tw[7])
             case["queries"] = self.lattice_queries(tw, rng, feats, tier, step=step)
+            self.make_session(case, rng)
             if exact_case(case):
                 return case
         return {"kind": "lattice", "net": False, "feats": [[[0.0, 0.0], [4.0, 3.0]], [[1.0, 2.5], [2.0, 2.5], [4.0, 0.0]]], "res": [1, 1],
                 "margin": "1/2", "late": [], "queries": [["pt", 1.0, 1.0], ["nd", 0.0, 3.0, 2.5]]}
+
+    def make_session(self, case, rng):
+        """sequences on one index object: the queries are also run BEFORE the later additions (`pre`), so that whatever a
+        query leaves behind in the index (a cache, a shared list) faces a changed grid when the same query is asked
+        again; and some queries are simply asked twice"""
+        qs = case["queries"]
+        if not qs:
+            return
+        if (case.get("late") and rng.random() < 0.85) or rng.random() < 0.06:
+            case["pre"] = [list(q) for q in qs]
+        if rng.random() < 0.2:
+            case["queries"] = qs + [list(rng.choice(qs)) for _ in range(rng.randrange(1, 3))]
 
     def float_case(self, rng, tier):
         scale = rng.choice([1, 10, 100, 1000])
         rnd = lambda: round(rng.uniform(0, scale), rng.choice([1, 2, 3]))
         nf = rng.randrange(1, 4)
         feats = [[[rnd(), rnd()] for _ in range(rng.randrange(2, 5))] for _ in range(nf)]
-        margin = rng.choice(["1/20", "1/20", "1/2", "1/10", "0.3"])
+        margin = rng.choice(["1/20", "1/20", "1/2", "1/10", "0.3", "0", "0"])
+        border_axis = None
+        degen = rng.random()
+        if degen < 0.06:
+            # all vertices on one vertical / horizontal line, or (rarely) at one point
+            p0 = feats[0][0]
+            for f in feats:
+                for p in f:
+                    if degen < 0.025 or degen >= 0.05:
+                        p[0] = p0[0]
+                    if degen >= 0.025:
+                        p[1] = p0[1]
+        if margin == "0" and rng.random() < 0.5:
+            # margin 0: a feature lying on the upper border of the extent (= of the bounding box): a street along the
+            # eastern or northern edge of the data set
+            allp = [p for f in feats for p in f]
+            xs, ys = [p[0] for p in allp], [p[1] for p in allp]
+            if rng.random() < 0.5:
+                feats.append([[max(xs), rng.choice(ys)], [max(xs), rng.choice(ys)]] + ([[max(xs), rnd()]] if rng.random() < 0.3 else []))
+                border_axis = 0
+            else:
+                feats.append([[rng.choice(xs), max(ys)], [rng.choice(xs), max(ys)]] + ([[rnd(), max(ys)]] if rng.random() < 0.3 else []))
+                border_axis = 1
         bb = case_bbox({"feats": feats})
         ax, ay = float(bb[1] - bb[0]) * 1.1, float(bb[3] - bb[2]) * 1.1
-        if ax <= 0 or ay <= 0:
-            return self.float_case(rng, tier)
+        base = min(ax, ay) if min(ax, ay) > 0 else (max(ax, ay) or 1.0)
         r = rng.random()
         if r < 0.1:
             res = None
             feats = [f[:3] for f in feats[:2]]
-            if rng.random() < 0.5:
+            if rng.random() < 0.5 and ax > 0 and ay > 0:
                 # thin extent: aspect ratio around 30 .. 1000 (int(short / r) = 0 .. 3 rows or columns)
                 a, q = rng.randrange(2), rng.choice([30, 60, 90, 150, 400, 1000])
                 feats = [[[p[0] / (q if a == 0 else 1), p[1] / (q if a == 1 else 1)] for p in f] for f in feats]
                 if len({p[a] for f in feats for p in f}) < 2:
                     return self.float_case(rng, tier)
         elif r < 0.5:
-            s = round(min(ax, ay) / rng.choice([1.5, 3, 7, 12]), 3)
+            s = round(base / rng.choice([0.6, 1.5, 3, 7, 12]), 3)
             res = [s, s]
         else:
-            res = [round(ax / rng.choice([1.5, 3, 7, 12, 30]), 3), round(ay / rng.choice([1.5, 3, 7, 12, 30]), 3)]
+            # a divisor < 1 gives a cell larger than the extent on that axis: one column / row
+            res = [round((ax or base) / rng.choice([0.6, 1.5, 3, 7, 12, 30]), 3), round((ay or base) / rng.choice([0.6, 1.5, 3, 7, 12, 30]), 3)]
+        if res is not None and border_axis is not None and rng.random() < 0.7:
+            # a float situation: the fractional index of the border, A / (A / n), exceeds n by a rounding error for about 3 %
+            # of the (extent, cell size) pairs: look for such a cell size on the axis that carries the border feature
+            lo_, hi_ = (bb[0], bb[1]) if border_axis == 0 else (bb[2], bb[3])
+            A = float(hi_) - float(lo_)
+            for _ in range(40):
+                if A <= 0:
+                    break
+                rr = round(A / rng.choice([1.5, 3, 7, 12, 30]) * rng.uniform(0.8, 1.2), 3)
+                if rr <= 0:
+                    continue
+                n = max(1, int(A / rr))
+                if A / (A / n) > n:
+                    res = list(res)
+                    res[border_axis] = rr
+                    break
         if res is not None and (res[0] <= 0 or res[1] <= 0):
             res = None
         case = {"kind": "float", "net": rng.random() < 0.2, "feats": feats, "res": res, "margin": margin, "late": [], "queries": []}
         tw = exact_twin(case)
-        if tw in (None, "zerodiv") or flat_grid(tw):
+        if tw in (None, "zerodiv"):
             return case
         if res is not None and (tw[4] * tw[5] > 4000 or max(tw[4], tw[5]) > 400):
             return self.float_case(rng, tier)      # keep the quadratic loops of the code affordable
         xmin, xmax, ymin, ymax = (float(v) for v in tw[:4])
-        P = lambda: [round(rng.uniform(xmin, xmax), 3), round(rng.uniform(ymin, ymax), 3)]
+        # (on a flat axis the only admissible abscissa is xmin = xmax itself: no rounding)
+        P = lambda: [xmin if xmin == xmax else round(rng.uniform(xmin, xmax), 3), ymin if ymin == ymax else round(rng.uniform(ymin, ymax), 3)]
         size = max(xmax - xmin, ymax - ymin)
         qs = []
+        P_ = P
+        verts = [p for f in feats for p in f]
+        # a quarter of the query points are vertices (with margin 0 the right-most / top-most ones are on the upper border)
+        P = lambda: list(rng.choice(verts)) if rng.random() < 0.25 else P_()
         for _ in range(rng.randrange(3, 8)):
             r = rng.random()
             if r < 0.3:
@@ -902,9 +1074,17 @@ class P(Prop):
             else:
                 qs.append(["cross", round(rng.uniform(0, 6), 2), round(rng.uniform(0, 6), 2), round(rng.uniform(0, 6), 2), round(rng.uniform(0, 6), 2)])
         case["queries"] = qs
+        if rng.random() < 0.15:
+            # later additions inside the extent (random vertices), the queries asked before and after them
+            n0 = len(feats)
+            case["late"] = [[n0 + k, [P_() for _ in range(rng.randrange(2, 4))]] for k in range(rng.randrange(1, 3))]
+        if case["net"] and rng.random() < 0.3:
+            case["entry"] = "create"
+        self.make_session(case, rng)
         return case
 
-    BASE = {"kind": "cross", "net": False, "feats": [[[0.0, 0.0], [2.0, 2.0]]], "res": [1, 1], "margin": "1/2", "late": []}
+    BASE = {"kind": "cross", "net": False, "feats": [[[0.0, 0.0], [2.0, 2.0]]], "res": [1, 1], "margin": "1/2", "late": []}      # 4 x 4 cells
+    BASE3 = {"kind": "cross", "net": False, "feats": [[[0.0, 0.0], [2.0, 2.0]]], "res": [1, 1], "margin": "1/4", "late": []}     # 3 x 3 cells
 
     def cases(self, rng, tier):
         out = []
@@ -912,8 +1092,11 @@ class P(Prop):
         n = 7 if tier == "quick" else 9
         pts = [[a / 2, b / 2] for a in range(n) for b in range(n)]
         allseg = [["cross"] + p + q for p in pts for q in pts]
+        # (quick: lattice {0..3}^2 on the 3 x 3 grid, thorough: {0..4}^2 on the 4 x 4 grid: the whole closed grid, so
+        # that segments ending on, crossing to and lying on the upper border go through the clamped index box)
+        base = self.BASE3 if tier == "quick" else self.BASE
         for k in range(0, len(allseg), 60):
-            out.append(dict(self.BASE, queries=allseg[k:k + 60]))
+            out.append(dict(base, queries=allseg[k:k + 60]))
         # shifted/negative and long segments
         for _ in range(30 if tier == "quick" else 300):
             qs = []
@@ -929,19 +1112,22 @@ class P(Prop):
         sizes = [(1, 1), (0.5, 1), (2, 0.5)] if tier == "quick" else [(1, 1), (0.5, 0.5), (0.5, 1), (2, 0.5), (1, 2), (2, 2)]
         for ia, a in enumerate(lp):
             for b in lp[ia + 1:]:
-                if a[0] == b[0] or a[1] == b[1]:
-                    continue
-                for res in sizes:
-                    case = {"kind": "track2", "net": False, "feats": [[a, b]], "res": list(res), "margin": "1/2", "late": [], "queries": []}
+                for res, margin in [(r_, "1/2") for r_ in sizes] + [(r_, "0") for r_ in sizes[:2]]:
+                    case = {"kind": "track2", "net": False, "feats": [[a, b]], "res": list(res), "margin": margin, "late": [], "queries": []}
                     tw = exact_twin(case)
-                    if tw in (None, "zerodiv") or flat_grid(tw) or not self.precondition(case):
+                    if tw in (None, "zerodiv") or not self.precondition(case):
                         continue
                     case["queries"] = self.lattice_queries(tw, rng, case["feats"], tier, full=True)
                     if exact_case(case):
                         out.append(case)
         # --- regression / finding witnesses
-        out.append({"kind": "witness", "net": False, "feats": [[[0.0, 0.0], [1.0, 1.0]]], "res": [1, 1], "margin": "0", "late": [], "queries": [["pt", 0.5, 0.5]]})
+        out.append({"kind": "witness", "net": False, "feats": [[[0.0, 0.0], [1.0, 1.0]]], "res": [1, 1], "margin": "0", "late": [], "queries": [["pt", 0.5, 0.5], ["pt", 1.0, 1.0]]})
+        out.append({"kind": "witness", "net": False, "feats": [[[0.0, 0.0], [2.0, 2.0]]], "res": [1, 1], "margin": "1/2", "late": [], "queries": [["pt", 3.0, 1.0], ["seg", 3.0, -1.0, 3.0, 3.0], ["nd", 3.0, 3.0, 1.5]]})
         out.append({"kind": "witness", "net": False, "feats": [[[0.0, 0.0], [1000.0, 5.0]]], "res": None, "margin": "1/20", "late": [], "queries": [["pt", 500.0, 2.5]]})
+        out.append({"kind": "witness", "net": False, "feats": [[[0.0, 0.0], [10.0, 0.0]]], "res": None, "margin": "1/20", "late": [], "queries": [["pt", 5.0, 0.0], ["nd", 2.0, 0.0, 1.0]]})
+        out.append({"kind": "witness", "net": False, "feats": [[[0.0, 0.0], [10.0, 0.0]]], "res": [2, 2], "margin": "1/20", "late": [], "queries": [["pt", 5.0, 0.0], ["seg", 1.0, 0.0, 9.0, 0.0]]})
+        out.append({"kind": "witness", "net": False, "feats": [[[0.0, 0.0], [10.0, 1.0]]], "res": [2, 5], "margin": "1/20", "late": [], "queries": [["pt", 5.0, 0.5], ["nd", 5.0, 1.0, 0.5]]})
+        out.append({"kind": "witness", "net": False, "feats": [[[3.0, 4.0], [3.0, 4.0]]], "res": None, "margin": "1/20", "late": [], "queries": [["pt", 3.0, 4.0], ["nd", 3.0, 4.0, 2.0], ["units", 2.0]]})
         out.append({"kind": "witness", "net": False, "feats": [[[0.0, 0.0], [60.0, 0.0], [60.0, 4.0]], [[0.0, 10.0], [60.0, 10.0]]], "res": [60, 1], "margin": "1/2",
                     "late": [], "queries": [["nd", 30.0, 0.0, 10.0], ["units", 10.0]]})
         # --- random lattice (exact) and float streams
@@ -956,7 +1142,17 @@ class P(Prop):
         res = case["res"]
         t = {"kind": case["kind"], "mode": "rat" if exact_case(case) else "flt", "margin": str(case["margin"]),
              "res": "default" if res is None else "square" if fr(res[0]) == fr(res[1]) else "non-square",
-             "net": bool(case.get("net")), "nfeat": len(case["feats"]), "late": bool(case.get("late"))}
+             "net": bool(case.get("net")), "nfeat": len(case["feats"]), "late": bool(case.get("late")),
+             "session": ("pre+late" if case.get("pre") and case.get("late") else "pre" if case.get("pre") else "late" if case.get("late") else "-"),
+             "entry": ("ctor" if (case.get("entry") or "ctor") == "ctor" else "Network.createSpatialIndex" if case.get("net") else "TrackCollection.createSpatialIndex"),
+             "coords": "Geo" if case.get("geo") else "ENU"}
+        bb = case_bbox(case)
+        if bb is not None:
+            fx, fy = bb[0] == bb[1], bb[2] == bb[3]
+            t["extent"] = "point" if fx and fy else "flat" if fx or fy else "2d"
+            tw = exact_twin(case)
+            if res is not None and tw not in (None, "zerodiv") and not (fx or fy):
+                t["cell>extent"] = bool(fr(res[0]) > tw[1] - tw[0] or fr(res[1]) > tw[3] - tw[2])
         return t
 
     def nontrivial(self, case):
@@ -970,8 +1166,18 @@ class P(Prop):
                 yield dict(case, queries=[qs[k]])
             yield dict(case, queries=qs[:len(qs) // 2])
             yield dict(case, queries=qs[len(qs) // 2:])
+        if case.get("pre") and len(case["pre"]) > 1:
+            for k in range(len(case["pre"])):
+                yield dict(case, pre=[case["pre"][k]])
         if case.get("late"):
             yield dict(case, late=[])
+            if len(case["late"]) > 1:
+                for k in range(len(case["late"])):
+                    yield dict(case, late=[case["late"][k]])
+        if case.get("pre"):
+            yield dict(case, pre=[])
+        if case.get("geo"):
+            yield dict(case, geo=False)
         fs = case["feats"]
         if len(fs) > 1:
             for k in range(len(fs)):
@@ -981,7 +1187,10 @@ class P(Prop):
                 for v in range(len(f)):
                     yield dict(case, feats=fs[:k] + [f[:v] + f[v + 1:]] + fs[k + 1:])
         if case.get("net"):
-            yield dict(case, net=False)
+            # (TrackCollection.createSpatialIndex takes no margin: back to the constructor)
+            yield dict(case, net=False, entry="ctor")
+        elif (case.get("entry") or "ctor") != "ctor" and str(case["margin"]) in ("0", "1"):
+            yield dict(case, entry="ctor")
 
     def mutate(self, case, rng):
         for _ in range(20):
@@ -992,3 +1201,15 @@ class P(Prop):
             p[rng.randrange(2)] += rng.choice([-0.5, 0.5, 1, -1])
             c["feats"] = fs
             yield c
+
+
+# ---- tie to the source by translation (tools/py2lean.py -> lean/TracklibVerif/Gen/Geometry.lean, regenerated on every run)
+P.tie_modules = ["TracklibVerif.Tie.C08"]
+P.theorems = P.theorems + [
+    ("TracklibVerif.Tie.C08", "TV.Tie.C08.tie_cartesienne", "the Lean translation of the CURRENT source of geometry.cartesienne equals the model's cartesienne on every segment list"),
+    ("TracklibVerif.Tie.C08", "TV.Tie.C08.tie_eval", "the translation of the CURRENT source of geometry.__eval equals the model's evalLine"),
+    ("TracklibVerif.Tie.C08", "TV.Tie.C08.tie_isSegmentIntersects", "the translation of the CURRENT source of geometry.isSegmentIntersects equals the model's straddle test on all pairs of segments"),
+    ("TracklibVerif.Tie.C08", "TV.Tie.C08.tie_groundDistanceToUnits", "the translation of the CURRENT source of SpatialIndex.groundDistanceToUnits equals the model's, ZeroDivisionError included (the model's == 0 test is Python's)"),
+    ("TracklibVerif.Tie.C08", "TV.Tie.C08.tie_getCellR", "the translation of the CURRENT source of SpatialIndex.__getCell (range tests, divisions with their ZeroDivisionError, caps min(index, size)) equals the model's executed form getCellR"),
+    ("TracklibVerif.Tie.C08", "TV.Tie.C08.tie_isSegmentIntersects_short1", "the translated isSegmentIntersects raises IndexError when the first list has fewer than four numbers"),
+]
